@@ -12,7 +12,9 @@ import (
 func C17(c *fw.Ctx) {
 	c.Rule("corpus, 1-2 step mutants, targeted generator (all notations, repeated codes, headers, allOf/or, enums, Path schemas) and tag-rich " +
 		"documents; every accepted build is exported with ToOpenAPIJson and ToOpenAPIJsonIndent; an error return is counted, a document is " +
-		"validated against the catalog; distinct = distinct project bytes; non-trivial = accepted and export returned a document")
+		"validated against the catalog, and every Schema Object of the document (components, parameters, request bodies, responses, headers; " +
+		"recursively) against the field table of OpenAPI 3.0.3 section 4.7.24 (known keys, value types, type names, items for arrays, non-empty " +
+		"required/enum/allOf/anyOf/oneOf, a Reference Object has no siblings); distinct = distinct project bytes; non-trivial = accepted and export returned a document")
 	c.Assume("the validator implements exactly the rules named in the property (harness/internal/ref/openapi.go); user type @x maps to component x")
 	pool := c.Pool(false, 0)
 	c.RunJobs(pool, func(emit func(*proto.Job)) {
